@@ -238,7 +238,7 @@ CHECKS = {
         text="LinePipe.tla enumerates every document of <= 3 (thorough 4) lines (line matches / carries a finding) x {plain, SAST, SAST "
         "without results} x line endings x final newline x dry-run with the reference outcome (edited lines, findings per change, "
         "unfixed findings, file written or not); XmlDocs.tla enumerates abstract XML documents (target / other / namespaced elements, "
-        "attribute subsets, entity text, CDATA, comments, PIs, four DOCTYPE forms, nesting; deeper ones sampled) x {attribute map, new "
+        "attribute subsets, entity text, CDATA, comments, PIs, character references to CR/LF/TAB, non-ASCII text (UTF-8 and ISO-8859-1 documents), five DOCTYPE forms incl. an internal subset, nesting; deeper ones sampled) x {attribute map, new "
         "element} x finding selections and computes the edited abstract document; every scenario is replayed through the public "
         "pipeline classes; XML output is parsed with expat and compared as event lists with the expected document.",
         design_ref="DESIGN.md §5 C19",
